@@ -92,44 +92,53 @@ theorem mt_safe_nested {n : Nat} {s : St} (h : Reach n s) (a : Nat) (ha : a ≤ 
   simp only [handles, hn] at hc
   rw [hc]; exact handlesOf_split n a s.slots b ha
 
-/-- an embedded handle is replaced only by the thread that holds the only handle of the enclosing block -/
-theorem mt_embedded_write_sole {n : Nat} {s s' : St} {tid t c v : Nat} (h : Reach n s)
-    (hs : astep s tid (.takeE t c v) = some s' ∨ astep s tid (.putE c t v) = some s') :
+/-- an embedded handle (ANY slot k of the family of block c) is replaced only by the thread that holds the only
+    handle of the enclosing block -/
+theorem mt_embedded_write_sole {n : Nat} {s s' : St} {tid t c k v : Nat} (h : Reach n s)
+    (hs : astep s tid (.takeE t c k v) = some s' ∨ astep s tid (.putE c k t v) = some s') :
     handles s c = 1 ∧ s.slots v = .blk c ∧ s.owner v = tid := by
   have inv := inv_reach h
   have key : soleVia s tid v c → handles s c = 1 ∧ s.slots v = .blk c ∧ s.owner v = tid := by
     rintro ⟨_, ho, hsl, blk, hb, hr⟩
     exact ⟨by rw [← inv.cnt c blk hb]; exact hr, hsl, ho⟩
   rcases hs with hs | hs <;> simp only [astep] at hs <;> split at hs
-  · rename_i hc; exact key hc.2.2.2.2.2.2.2
+  · rename_i hc; exact key hc.2.2.2.2.2.2.2.1
   · cases hs
-  · rename_i hc; exact key hc.2.2.2.2.2.2.2
+  · rename_i hc; exact key hc.2.2.2.2.2.2.2.1
   · cases hs
 
-/-- the destructor step: the embedded handle is taken out of a block that has no handle left and that
-    this thread is about to delete (nobody else can reach it) -/
-theorem mt_embedded_take_on_release {n : Nat} {s s' : St} {tid t c : Nat} (h : Reach n s)
-    (hs : astep s tid (.takeF t c) = some s') :
+/-- the destructor steps: an embedded handle (any slot k of the family) is taken out of / adopted from a block that
+    has no handle left and that this thread is about to delete (nobody else can reach it) -/
+theorem mt_embedded_take_on_release {n : Nat} {s s' : St} {tid t c k : Nat} (h : Reach n s)
+    (hs : astep s tid (.takeF t c k) = some s' ∨ astep s tid (.adoptF c k) = some s') :
     handles s c = 0 ∧ (∃ blk, s.heap c = some blk) ∧ ∀ tid', s.pc tid' = .freeing c → tid' = tid := by
   have inv := inv_reach h
-  simp only [astep] at hs
-  split at hs
-  case isFalse => cases hs
-  case isTrue hc =>
-    obtain ⟨⟨blk, hb, hz⟩, hu⟩ := inv.freeing tid c hc.2.2.2.2.1
+  have key : s.pc tid = .freeing c →
+      handles s c = 0 ∧ (∃ blk, s.heap c = some blk) ∧ ∀ tid', s.pc tid' = .freeing c → tid' = tid := by
+    intro hp
+    obtain ⟨⟨blk, hb, hz⟩, hu⟩ := inv.freeing tid c hp
     exact ⟨by rw [← inv.cnt c blk hb]; exact hz, ⟨blk, hb⟩, hu⟩
+  rcases hs with hs | hs <;> simp only [astep] at hs <;> split at hs
+  · rename_i hc; exact key hc.2.2.2.2.1
+  · cases hs
+  · rename_i hc; exact key hc.2.1
+  · cases hs
 
-/-- a shared payload is read-only: while thread `tid` holds block c through its own slot v, no step of
-    another thread (other than the owner of the embedded slot itself) changes the handle embedded in c -/
-theorem mt_embedded_stable {n : Nat} {s s' : St} {tid tid2 v c : Nat} {a : Act} (h : Reach n s)
-    (hv : v < s.n) (ho : s.owner v = tid) (hsl : s.slots v = .blk c)
-    (hs : astep s tid2 a = some s') (hne : tid2 ≠ tid) (hown : s.owner (embSlot c) ≠ tid2) :
-    s'.slots (embSlot c) = s.slots (embSlot c) := by
+/-- a shared payload is read-only, with ALL its embedded handles: while thread `tid` holds block c through its own slot
+    v, no step of another thread (other than the owner of the embedded slot itself) changes the handle in any slot k
+    of the family embedded in c -/
+theorem mt_embedded_stable {n : Nat} {s s' : St} {tid tid2 v c k : Nat} {a : Act} (h : Reach n s)
+    (hv : v < s.n) (ho : s.owner v = tid) (hsl : s.slots v = .blk c) (hcb : c < maxBlocks)
+    (hs : astep s tid2 a = some s') (hne : tid2 ≠ tid) (hown : s.owner (embSlotK c k) ≠ tid2) :
+    s'.slots (embSlotK c k) = s.slots (embSlotK c k) := by
   have inv := inv_reach h
-  rcases astep_slots_other hs hown with e | ⟨t, c', v', ha, hx⟩ | ⟨t, c', ha, hx⟩
+  rcases astep_slots_other hs hown with e | ⟨t, c', k', v', ha, hx⟩ | ⟨t, c', k', ha, hx⟩
   · exact e
   · -- takeE / putE by tid2 needs the only handle of c, but v (of another thread) designates c as well
-    have hc' : c' = c := by simp only [embSlot] at hx; omega
+    have hc'b : c' < maxBlocks := by
+      rcases ha with ha | ha <;> subst ha <;> simp only [astep] at hs <;> split at hs <;>
+        first | (cases hs; done) | (rename_i hc; exact hc.2.2.2.2.2.2.2.2)
+    have hc' : c' = c := (embSlotK_inj hcb hc'b hx).1.symm
     subst hc'
     have sole : handles s c' = 1 ∧ s.slots v' = .blk c' ∧ s.owner v' = tid2 := by
       rcases ha with ha | ha
@@ -137,17 +146,51 @@ theorem mt_embedded_stable {n : Nat} {s s' : St} {tid tid2 v c : Nat} {a : Act} 
       · subst ha; exact mt_embedded_write_sole h (Or.inr hs)
     have hv' : v' < s.n := by
       rcases ha with ha | ha <;> subst ha <;> simp only [astep] at hs <;> split at hs <;>
-        first | (cases hs; done) | (rename_i hc; exact hc.2.2.2.2.2.2.2.1)
+        first | (cases hs; done) | (rename_i hc; exact hc.2.2.2.2.2.2.2.1.1)
     have hvv : v ≠ v' := by intro e; subst e; rw [ho] at sole; exact hne sole.2.2.symm
     have := sole_handle s.n s.slots v' v c' hv' hv hvv sole.2.1 hsl
     have h1 := sole.1
     simp only [handles] at h1; omega
   · -- takeF by tid2 needs c without handles
-    have hc' : c' = c := by simp only [embSlot] at hx; omega
-    subst hc'; subst ha
-    have z := (mt_embedded_take_on_release h hs).1
+    subst ha
+    have hc'b : c' < maxBlocks := by
+      simp only [astep] at hs; split at hs <;> first | (cases hs; done) | (rename_i hc; exact hc.2.2.2.2.2.2.2)
+    have hc' : c' = c := (embSlotK_inj hcb hc'b hx).1.symm
+    subst hc'
+    have z := (mt_embedded_take_on_release h (Or.inl hs)).1
     have := handles_pos s.n s.slots v c' hv hsl
     simp only [handles] at z; omega
+
+/-- the handles embedded in a dying payload change owner only towards the thread that is releasing that payload; every
+    other step leaves the owner of every embedded slot alone, except the explicit hand-over `give` by the owner -/
+theorem mt_embedded_owner_stable {n : Nat} {s s' : St} {tid x : Nat} {a : Act} (_h : Reach n s)
+    (hs : astep s tid a = some s') (hx : s.owner x ≠ tid) :
+    s'.owner x = s.owner x ∨ ∃ c k, a = .adoptF c k ∧ x = embSlotK c k ∧ s.pc tid = .freeing c := by
+  cases a
+  case give v t' =>
+    simp only [astep] at hs
+    split at hs
+    case isFalse => cases hs
+    case isTrue hc =>
+      cases hs; left
+      have : x ≠ v := by intro e; subst e; exact hx hc.2.1
+      exact upd_other _ _ _ _ this
+  case adoptF c k =>
+    simp only [astep] at hs
+    split at hs
+    case isFalse => cases hs
+    case isTrue hc =>
+      cases hs
+      by_cases e : x = embSlotK c k
+      · right; exact ⟨c, k, rfl, e, hc.2.1⟩
+      · left; exact upd_other _ _ _ _ e
+  all_goals (
+    left
+    simp only [astep] at hs <;> (repeat' split at hs) <;>
+    first
+    | (cases hs; done)
+    | (cases hs; rfl)
+    | (cases hs; simp only [doInc]; (repeat' split) <;> rfl))
 
 /-- the NEXT step of any thread from any reachable state is safe as well: it does not touch a
     released block, release twice, or write in place a block that has another handle -/
